@@ -2,7 +2,7 @@
 from __future__ import annotations
 
 from fv import canon, core, explore, geometry, harness
-from fv.corpus import CORPUS, SIZED
+from fv.corpus import CORPUS, SIZED, LAYOUT
 
 TYPES = {"small": "small-electric-pole", "medium": "medium-electric-pole", "big": "big-electric-pole", "substation": "substation"}
 DEVS = [None, ("stretch-x", 3), ("stretch-y", 2), ("mirror-x",), ("lower-out", 4), ("no-solution",), ("push", 0, 10), ("push", 1, 25)]
@@ -21,7 +21,7 @@ class C18(core.Check):
     assumptions = ["supply_area_distance / maximum_wire_distance / energy_source from the game data shipped with draftsman"]
 
     def cases(self, tier):
-        progs = list(CORPUS) + [p for p in SIZED if tier == "thorough" or p != "combs-60"]
+        progs = list(CORPUS) + list(LAYOUT) + [p for p in SIZED if tier == "thorough" or p != "combs-60"]
         out = []
         for p in progs:
             devs = DEVS if tier == "thorough" else DEVS[:6]
@@ -34,6 +34,7 @@ class C18(core.Check):
 
     def run_case(self, case):
         progs = dict(CORPUS)
+        progs.update(LAYOUT)
         progs.update(SIZED)
         src = progs[case["program"]]
         T = case["T"]
